@@ -24,9 +24,9 @@ def build(tier, seed, exclude):
     g.raw(HELPERS)
     quick = tier == "quick"
     to = 100 if quick else 400
-    modes = [0, 2, 3, 4, 5, 6, 7, 8, 9, 10, 11, 12, 13]        # 12 / 13: the body ends in SystemExit / KeyboardInterrupt
+    modes = [0, 2, 3, 4, 5, 6, 7, 8, 9, 10, 11, 12, 13, 14]    # 12 / 13: the body ends in SystemExit / KeyboardInterrupt; 14: removes its working directory, then raises
     # one condition per mode group so that the 16 cores share the work
-    groups = [[0], [5, 10, 11], [2, 3, 4, 6], [7, 8, 9], [12, 13]]
+    groups = [[0], [5, 10, 11], [2, 3, 4, 6], [7, 8, 9], [12, 13], [14]]
     for k, grp in enumerate(groups):
         g.cond(f"h_modes_{k}", "mi: int, x: int, again: bool", [f"0 <= mi < {len(grp)} and 0 <= x <= 2"], f"""
             mode = {grp!r}[T.real(mi)]
